@@ -96,6 +96,8 @@ type NodeSpec struct {
 	InitializedAt int    `json:"initializedAt"` // transition time of Initialized=True (stage initialized)
 	LastPodEvent  int    `json:"lastPodEvent"`  // status.lastPodEventTime, -1 unset
 	CreatedAt     int    `json:"createdAt"`
+	// NodeGone: stage initialized, but the Node object does not exist (deleted out from under the NodeClaim).
+	NodeGone bool `json:"nodeGone"`
 	// Deleting: the NodeClaim carries a deletionTimestamp (and its finalizer).
 	Deleting bool `json:"deleting"`
 	// NodeDeleting: the Node carries a deletionTimestamp (NodeClaim untouched).
